@@ -186,6 +186,32 @@ theorem roundDiv_eq_of_isRounded {m : RoundMode} {a b q : Int} (hb : b ≠ 0) (h
     roundDiv m a b = q :=
   isRounded_unique m a b _ _ (roundDiv_isRounded m a b hb) h
 
+/-- every mode's characterisation puts `q * b` less than `|b|` away from `a` -/
+theorem close_of_isRounded {m : RoundMode} {a b q : Int} (h : IsRounded m a b q) (hb : b ≠ 0) :
+    (q * b - a).natAbs < b.natAbs := by
+  cases m <;> simp only [IsRounded] at h
+  · generalize q * b = p at *; omega
+  · generalize q * b = p at *; omega
+  · have e1 : 2 * q * b = 2 * (q * b) := by grind
+    have e2 : 2 * (q + 1) * b = 2 * (q * b) + 2 * b := by grind
+    rw [e1, e2] at h
+    generalize q * b = p at *
+    split at h <;> omega
+  · rw [Int.add_mul, Int.one_mul] at h
+    generalize q * b = p at *
+    split at h <;> omega
+
+theorem natAbs_le_of_close {q a b : Int} (h : (q * b - a).natAbs < b.natAbs) : q.natAbs ≤ a.natAbs := by
+  have h1 : (q * b).natAbs ≤ (q * b - a).natAbs + a.natAbs := by omega
+  rw [Int.natAbs_mul] at h1
+  have hB : 0 < b.natAbs := by omega
+  by_cases hc : q.natAbs ≤ a.natAbs
+  · exact hc
+  · have h2 : (a.natAbs + 1) * b.natAbs ≤ q.natAbs * b.natAbs := Nat.mul_le_mul_right _ (by omega)
+    have h3 : a.natAbs ≤ a.natAbs * b.natAbs := Nat.le_mul_of_pos_right _ hB
+    rw [Nat.add_mul, Nat.one_mul] at h2
+    omega
+
 end Cnl.Spec
 
 namespace Cnl.Rounding
